@@ -254,7 +254,7 @@ MONITORS = {"tamper": monitor, "directed": monitor}
 
 
 def run(env):
-    nsess, upto, ss = env.pick((60, 33, 0.5), (900, 64, 0.6))
+    nsess, upto, ss = env.pick((60, 33, 0.5), (400, 64, 0.6))
     cw = build(env, nsess, upto, ss)
     res = env.drive("tamper", cw.text())
     env.require_complete(res, "tamper")
